@@ -307,6 +307,13 @@ def aggValue (cx : EvalCtx) (f : Function) (argKey : Str) (memo : Memo) : Varian
   let (txt, ex) := cx.agg f cx.buffer argKey
   ({ Variant.ofString txt with exact := ex }, memo)
 
+/-- a leading minus on a column or a function call: `0.0 - value` (D39 fix) -/
+def negateIf (minus : Bool) (v : Variant) : Variant :=
+  if minus then
+    let r := ArithOp.Subtract.calc (.ofInt 0) v
+    { r with exact := r.exact && v.exact }
+  else v
+
 mutual
 /-- `get_column_expr_value` (+ `get_function_value`): returns the value and the updated memo -/
 def columnValue (cx : EvalCtx) (e? : Option Entry) (memo : Memo) (x : Expr) : EM (Variant × Memo) :=
@@ -315,24 +322,30 @@ def columnValue (cx : EvalCtx) (e? : Option Entry) (memo : Memo) (x : Expr) : EM
   | some v => .ok (.ofString v, memo)
   | none =>
     match x with
-    | .func0 _ f =>
+    | .func0 mn f =>
       -- no first argument: the Rust evaluates a dummy empty literal
-      if f.isAggregate then .ok (aggValue cx f [] memo)
-      else applyFn cx e? f key (.ofSignedString [] false) [] true memo
-    | .func _ f l args =>
+      let r : EM (Variant × Memo) := if f.isAggregate then .ok (aggValue cx f [] memo)
+               else applyFn cx e? f key (.ofSignedString [] false) [] true memo
+      match r with
+      | .error er => .error er
+      | .ok (v, m) => let v' := negateIf mn v; .ok (v', m.insert key v'.text)
+    | .func mn f l args =>
       match columnValue cx e? memo l with
       | .error er => .error er
       | .ok (av, m1) =>
-        if f.isAggregate then .ok (aggValue cx f l.display m1)
-        else
-          match argValues cx e? m1 args with
-          | .error er => .error er
-          | .ok (avs, m2, exs) => applyFn cx e? f key av avs exs m2
-    | .field _ f =>
+        let r : EM (Variant × Memo) := if f.isAggregate then .ok (aggValue cx f l.display m1)
+                 else
+                   match argValues cx e? m1 args with
+                   | .error er => .error er
+                   | .ok (avs, m2, exs) => applyFn cx e? f key av avs exs m2
+        match r with
+        | .error er => .error er
+        | .ok (v, m) => let v' := negateIf mn v; .ok (v', m.insert key v'.text)
+    | .field mn f =>
       match e? with
       | some e =>
         match fieldValue cx.cfg e f with
-        | .ok v => .ok (v, memo.insert key v.text)
+        | .ok v => let v' := negateIf mn v; .ok (v', memo.insert key v'.text)
         | .error er => .error er
       | none =>
         match memo.get? f.display with
